@@ -12,7 +12,7 @@ ID = 'C06'
 RULE = ('rate arrays: ALL arrays of length <=4 (thorough 5) over {0,0.1,0.2,0.3,1/3,0.7,1e-12,1e3} with a positive entry, '
         'the dyadic family over {0,0.25,0.5,1,2} and the sub-unit family n x v (n<=12, optional trailing/leading zero); '
         'draws: EVERY tuple of length N<=2 (thorough 3) over U = {0, every cumulative boundary and its ulp neighbours, '
-        'every interval midpoint, 1-2^-53}, injected through random_numbers into the public S/M/CL tests; L-test under a '
+        'every interval midpoint, 1-2^-53}, injected through random_numbers into the public S/M/CL tests (2x2 rate arrays also in column-major and transposed-view memory layouts); L-test under a '
         'scripted numpy.random (every Poisson answer 0..3 x every uniform tuple); binary S / binary CL / Brier '
         'rejection loops under EVERY uniform script of length <=3 (thorough 4; one less when the draw alphabet exceeds 8 letters, 1 when it exceeds 14) over the unambiguous draws; seeds '
         '{0,1,2,12345,2^32-1} x num_simulations {1,2,7} for all nine simulation-based tests. A (rates, draws) pair is '
@@ -80,11 +80,15 @@ def shape_for(test, n):
     return n, 1
 
 
-def setup(rates, test, n_obs):
+def setup(rates, test, n_obs, layout='C'):
     n = len(rates)
     nc, nm = shape_for(test, n)
     reg, origins, mags = fixtures.grid_setup(nc, nm)
     data = numpy.array(rates, dtype=float).reshape(nc, nm)
+    if layout == 'F':
+        data = numpy.asfortranarray(data)          # same values, column-major memory layout
+    elif layout == 'T':
+        data = numpy.ascontiguousarray(data.T).T    # a transposed view
     fc = fixtures.gridded_forecast(data, reg, mags)
     counts = numpy.zeros((nc, nm), dtype=int)
     k = next(i for i, r in enumerate(rates) if r > 0)
@@ -184,10 +188,13 @@ def run_inject(case, failures, hsh):
         for N in range(0, maxN + 1):
             tuples = list(itertools.product(U, repeat=N))
             rn = numpy.array(tuples, dtype=float).reshape(len(tuples), N)
-            for test in tests:
-                fc, cat = setup(rates, test, N)
-                rep = dict(kind='inject1', rates=rates, test=test, draws=None)
-                site = f'poisson_evaluations.{public(test).__name__}'
+            for test in tests + ((('CL', 'F'), ('CL', 'T')) if len(rates) == 4 else ()):
+                layout = 'C'
+                if isinstance(test, tuple):
+                    test, layout = test
+                fc, cat = setup(rates, test, N, layout)
+                rep = dict(kind='inject1', rates=rates, test=test, draws=None, layout=layout)
+                site = f'poisson_evaluations.{public(test).__name__}' + ('' if layout == 'C' else '[non-C-contiguous rates]')
                 try:
                     with Spy(pe) as spy:
                         res = public(test)(fc, cat, num_simulations=len(tuples), random_numbers=rn)
@@ -237,8 +244,8 @@ def run_inject1(case, failures, hsh):
     t = case['draws'] or []
     N = len(t)
     F = rs.exact_cdf(rates)
-    fc, cat = setup(rates, test, N)
-    site = f'poisson_evaluations.{public(test).__name__}'
+    fc, cat = setup(rates, test, N, case.get('layout', 'C'))
+    site = f'poisson_evaluations.{public(test).__name__}' + ('' if case.get('layout', 'C') == 'C' else '[non-C-contiguous rates]')
     cls = input_class(rates, t)
     try:
         with Spy(pe) as spy:
@@ -349,16 +356,17 @@ def run_binary(case, failures, hsh):
         for N in (1, 2):
             if N > npos:
                 continue
-            for test, mod in (('bS', be), ('bCL', be), ('Br', br)):
+            for test, mod, layout in (('bS', be, 'C'), ('bCL', be, 'C'), ('Br', br, 'C')) + ((('bCL', be, 'F'), ('Br', br, 'F')) if len(rates) == 4 else ()):
                 n = len(rates)
                 nc, nm = (n, 1) if test == 'bS' else shape_for('CL', n)
                 reg, origins, mags = fixtures.grid_setup(nc, nm)
-                fc = fixtures.gridded_forecast(numpy.array(rates, dtype=float).reshape(nc, nm), reg, mags)
+                data_ = numpy.array(rates, dtype=float).reshape(nc, nm)
+                fc = fixtures.gridded_forecast(numpy.asfortranarray(data_) if layout == 'F' else data_, reg, mags)
                 counts = numpy.zeros(nc * nm, dtype=int)
                 pos = [i for i, r in enumerate(rates) if r > 0][:N]
                 counts[pos] = 1
                 cat = fixtures.catalog(fixtures.events_from_counts(counts.reshape(nc, nm), origins, mags), region=reg)
-                site = f'{mod.__name__.split(".")[-1]}.{public(test).__name__}'
+                site = f'{mod.__name__.split(".")[-1]}.{public(test).__name__}' + ('' if layout == 'C' else '[non-C-contiguous rates]')
                 Lmax = case['L'] if len(U) <= 8 else (case['L'] - 1 if len(U) <= 14 else 1)
                 Ls = range(0, Lmax + 1)
                 for L in Ls:
@@ -368,7 +376,7 @@ def run_binary(case, failures, hsh):
                         if active < N:
                             continue
                         sc = env.Script(uniforms=script)
-                        rep = dict(kind='binary1', rates=rates, test=test, N=N, script=list(head))
+                        rep = dict(kind='binary1', rates=rates, test=test, N=N, script=list(head), layout=layout)
                         cls = ('zero-rate-bins' if any(r <= 0 for r in rates) else 'positive-rates')
                         try:
                             with env.scripted_random(sc), Spy(mod) as spy:
@@ -404,14 +412,15 @@ def run_binary1(case, failures, hsh):
     n = len(rates)
     nc, nm = (n, 1) if test == 'bS' else shape_for('CL', n)
     reg, origins, mags = fixtures.grid_setup(nc, nm)
-    fc = fixtures.gridded_forecast(numpy.array(rates, dtype=float).reshape(nc, nm), reg, mags)
+    data_ = numpy.array(rates, dtype=float).reshape(nc, nm)
+    fc = fixtures.gridded_forecast(numpy.asfortranarray(data_) if case.get('layout') == 'F' else data_, reg, mags)
     counts = numpy.zeros(nc * nm, dtype=int)
     counts[[i for i, r in enumerate(rates) if r > 0][:N]] = 1
     cat = fixtures.catalog(fixtures.events_from_counts(counts.reshape(nc, nm), origins, mags), region=reg)
     mids = rs.midpoints(rates)
     script = list(head) + [mids[i % len(mids)] for i in range(2 * len(mids))]
     want, used, active = ref_rejection(script, rates, N)
-    site = f'{mod.__name__.split(".")[-1]}.{public(test).__name__}'
+    site = f'{mod.__name__.split(".")[-1]}.{public(test).__name__}' + ('' if case.get('layout', 'C') == 'C' else '[non-C-contiguous rates]')
     cls = ('zero-rate-bins' if any(r <= 0 for r in rates) else 'positive-rates')
     try:
         with env.scripted_random(env.Script(uniforms=script)), Spy(mod) as spy:
